@@ -21,7 +21,7 @@ EXCLUDE_KNOWN = {
     "maps/outline-from-text/bottom-row-short": True,
     # pin `grid contents` written with bare integers are never matched by latticeIDs (GridBlueprint.getLocators compares the
     # str() of the latticeIDs with the raw specifier): the component is silently left off the lattice
-    "component/int-grid-specifier-unmatched": True,
+    "component/int-grid-specifier-unmatched": False,  # repaired in /repo (fix: commit cbbfa0a): searched again
 }
 
 
@@ -915,6 +915,7 @@ _DUP_SIGS = {
     "bycomp-length-same-name": "inconsistent/by-component-length-same-name-accepted",
 }
 EXCLUDE_KNOWN.update({sig: True for sig in _DUP_SIGS.values()})
+EXCLUDE_KNOWN["inconsistent/by-component-length-same-name-accepted"] = False  # repaired in /repo (fix: commit ced2179): searched again
 
 
 _KIND_WEIGHT = {"bundle-exceeds-inner-duct": 3, "mult-conflict": 2, "bycomp-length": 3, "assembly-area": 2}
